@@ -63,40 +63,15 @@ def _write_project(bridge):
             f.write(text)
 
 
-def _bridge():
-    """Decide whether the composition with the striping model of C04 (C01History.v) is part of
-    this run.  It is left out -- with a note, never silently -- when coq/stripe does not build or
-    no longer offers the interface StripeBridge.v uses: a problem of the other group must not
-    turn every C01 obligation into a broken one."""
-    from vlib import common as C
-    try:
-        r = C.build_coq("stripe")
-        if not r.get("ok"):
-            _write_project(False)
-            return False, "C01History.v (composition with C04) left out: coq/stripe does not build (%s line %s)" % (
-                r.get("failed_file"), r.get("failed_line"))
-        _write_project(True)
-        r = C.build_coq("score")
-        if not r.get("ok") and (r.get("failed_group") == "stripe" or
-                                 os.path.basename(r.get("failed_file") or "") in _BRIDGE_FILES):
-            _write_project(False)
-            return False, "C01History.v (composition with C04) left out: %s line %s does not build against coq/stripe" % (
-                r.get("failed_file"), r.get("failed_line"))
-        return True, "C01History.v (composition with the striping model of C04) included"
-    except Exception as e:  # never let the probe crash the check
-        _write_project(False)
-        return False, "C01History.v left out: probe raised %r" % (e,)
-
-
 def translate():
     # GenAvx2.v (AVX2 lane tables, dispatcher table) and GenLane4.v (SSE2 / NEON interleaving
-    # paths and store offsets)
+    # paths and store offsets; presence of the wrapper guards).  _CoqProject is (re)written with
+    # the composition with the striping model of C04 (coq/stripe, finished and stable) included.
     from translate import score_avx2, score_lane4
     a, b = score_avx2.run(), score_lane4.run()
-    bridged, note = _bridge()
-    SPEC["more_props"] = [("C01History.v", "LMScore.C01History")] if bridged else []
+    _write_project(True)
     return dict(ok=a.get("ok", True) and b.get("ok", True),
-                notes=a.get("notes", []) + b.get("notes", []) + [note],
+                notes=a.get("notes", []) + b.get("notes", []),
                 errors=a.get("errors", []) + b.get("errors", []))
 
 
@@ -105,7 +80,7 @@ SPEC = dict(
     group="score",
     props_file="C01.v",
     module="LMScore.C01",
-    more_props=[],
+    more_props=[("C01History.v", "LMScore.C01History")],
     harness_bin="score",
     ml_modules=["score_model"],
     n={"quick": 1200, "thorough": 16000},
@@ -113,23 +88,23 @@ SPEC = dict(
     nontrivial=nontrivial,
     histogram=histogram,
     translate=translate,
-    rule="Proof: 28 theorems of coq/score/C01.v (+ 2 of C01History.v), for all inputs (no size bound): generic pipeline cell = defined "
+    rule="Proof: 31 theorems of coq/score/C01.v (+ 2 of C01History.v), for all inputs (no size bound): generic pipeline cell = defined "
          "left-to-right sum for any carrier/addition (score_generic_cell, score_unstripe: exactly L-M+1 values, none "
          "when L<M; score_rows_sub; score_position); AVX2 permute and gather kernels, the AVX2 wrapper, the SSE2 "
          "kernel (any multiple of 16 columns; abstract addition with x+0=x off -0, instantiated for binary32 from "
          "Flocq) and every arm of the dispatcher equal the generic pipeline for every row range, every previous "
          "buffer content and every padding content (lane tables regenerated from avx2.rs/dispatch.rs by the "
-         "translators and re-checked by reflection: avx2_layout_ok, lane4_layout_ok); the NEON kernel (translator + "
-         "proof only, not compiled on x86) equals generic on every in-matrix range and is refuted beyond "
-         "(C01_neon_range_unguarded_refuted: its wrapper lacks the row-range assertion); sub-range, L<M and "
+         "translators and re-checked by reflection: avx2_layout_ok, lane4_layout_ok); the NEON kernel and wrapper "
+         "(translator + proof only, not compiled on x86) equal generic for every row range as well, after the "
+         "repair of /repo commit 9cd9b52 (C01_neon_range_unguarded_old_refuted keeps the witness against the "
+         "wrapper as it was: no row-range assertion); sub-range, L<M and "
          "unconfigured-wrap guards per backend; Index<usize>; 16- and "
          "32-column layouts; IEEE facts from Flocq: neg_inf_absorbs, fsum_error_bound (FULL: |fl(sum)-sum| <= "
          "((1+2^-24)^n - 1) * sum|t| when no partial sum overflows), a computable no-overflow condition "
          "(n <= 2^23, sum|t| <= 2^126), defined_sum_holds; check_C01_sound (the extracted checker implies the "
          "real-number statement Holds_C01), C01_model_passes_checker (no false alarm on the model); "
          "C01History.v: the Striped hypothesis is discharged for the state reached by any history of "
-         "stripe/stripe_into/configure/configure_wrap calls of the C04 model (left out, with a note in the "
-         "evidence, when coq/stripe does not build). "
+         "stripe/stripe_into/configure/configure_wrap calls of the C04 model. "
          "Correspondence run: DNA (K=5, AVX2 permute path) and protein (K=21, AVX2 gather path) cases; C=32 through "
          "Pipeline::generic/sse2/avx2, Pipeline::dispatch() and ScoringMatrix::score under each forced arm "
          "(verif hook) and unforced; C=16 and C=48 through generic and SSE2; M in 0..40; L in {0..M+2}, "
@@ -143,16 +118,17 @@ SPEC = dict(
          "and out-of-range), score_position (incl. out-of-range); the README example is in the corpus. Every "
          "result cell, panic and value is "
          "compared bit for bit with the extracted Coq model at binary32 (Flocq); PROPFAIL is decided by the "
-         "extracted check_C01 (count, definition/tolerance n*2^-23*sum|t|, -inf) and by equality of the bit "
-         "patterns across pipelines, arms and sub-range calls. Non-trivial: distinct (alphabet, "
+         "extracted, proved-sound checkers check_C01 (count, definition/tolerance n*2^-23*sum|t|, -inf), "
+         "check_same_results and check_subrange (equality of the bit patterns across pipelines, arms and "
+         "sub-range calls). Non-trivial: distinct (alphabet, "
          "C, L mod C, size class, M, has -inf, sub-ranges, wrap kind) with L >= M and >= 2 distinct symbols.",
     trusted_base=[
         "Coq 8.16.1 kernel (coqc); vm_compute only in the lane-layout reflection (avx2_layout_ok) and the Example lemmas; no native_compute",
         "Flocq 4.1 (BinarySingleNaN, Plus_error, Relative) as the definition of IEEE-754 binary32 addition, through LMBase.IEEE; the classical axioms of Coq's Reals that Flocq's B2R theorems use (sig_forall_dec, sig_not_dec, functional_extensionality_dep, classic) under the 13 theorems that mention reals or the -0 lemma",
         "extraction: ExtrOcamlBasic only (nat, N, Z, positive, Flocq floats kept as extracted inductives); OCaml 4.13.1",
-        "hand-written OCaml driver ocaml/score/driver.ml (parsing, comparison of bit patterns across pipelines, sampling of rows for the costly kernel models)",
+        "hand-written OCaml driver ocaml/score/driver.ml (parsing, conversion to the extracted types, comparison of the model's cells with the observed ones, sampling of rows for the costly kernel models)",
         "Rust harness harness/src/bin/score.rs (calls the public API, catch_unwind, prints bit patterns; `=` back-references for results identical to the generic pipeline's)",
-        "translators translate/score_avx2.py (regex extraction of the AVX2 shuffle masks and which accumulator each feeds, permute2f128 operands, store offsets, the dispatcher's match arms) and translate/score_lane4.py (SSE2 unpack / NEON zip network as paths of halves, accumulator pairing, store offsets); both also require the loop and pointer-advance statements to have the modelled shape",
+        "translators translate/score_avx2.py (regex extraction of the AVX2 shuffle masks and which accumulator each feeds, permute2f128 operands, store offsets, the dispatcher's match arms) and translate/score_lane4.py (SSE2 unpack / NEON zip network as paths of halves, accumulator pairing, store offsets, presence and order of the guards of the SSE2 and NEON safe wrappers); both also require the loop and pointer-advance statements to have the modelled shape",
         "lane-wise semantics given to the x86 intrinsics in coq/score/SimdModel.v (shuffle_epi8, unpack*_epi8, permutevar8x32, i32gather, permute2f128, cmpeq/and, add_ps, stream stores), exercised by the correspondence run",
         "modelled, not verified: the Rust code itself (pli/mod.rs, avx2.rs, sse2.rs, dispatch.rs, scores.rs, seq.rs, pwm/mod.rs as read); the NEON f32 kernel is modelled and tied by the translator and the proof only (not compiled on this host, never executed: its intrinsics semantics is untested)",
         "for C01History.v: the striping model and theorems of property C04 (coq/stripe, another group)",
